@@ -75,8 +75,8 @@ CHECKS = {
  "C13": dict(
     level=TV, design="2/C13", engine="tvsmt",
     technique="SMT translation validation of the orbital-energy fraction algebra: input and actual output of each real operation encoded over symbolic orbital energies and tensor entries; two-stage decision (free inverse-bracket unknowns, then denominators cleared per outer monomial) by z3",
-    text="split/rebuild, canonicalize_sign, permute_num, cancel_orb_energy_frac, factor_eri_parts, factor_denom, symbolic<->explicit denominators (both directions), diagonalize_fock (diagonal Fock model; incl. chains of Fock elements with intersecting indices), block_diagonalize_fock (block-diagonal model) on generated terms with 1-3 brackets (powers <=2) and rational numerators incl. weighted combinations of the brackets.",
-    note="Models <=2o2v; brackets of >=2 energies; documented refusals give no verdict. Stage 2 assumes non-vanishing brackets."),
+    text="split/rebuild, canonicalize_sign (default and only_denom), permute_num (incl. remainders symmetric only under products of transpositions, partial denominators, target-index symmetries), cancel_orb_energy_frac, factor_eri_parts, factor_denom, symbolic<->explicit denominators (both directions), diagonalize_fock (diagonal Fock model; incl. chains of Fock elements with intersecting indices), block_diagonalize_fock (block-diagonal model) on generated terms with 1-3 brackets (powers <=2) and rational numerators incl. weighted combinations of the brackets.",
+    note="Models <=2o2v; brackets of >=2 energies; documented refusals give no verdict. Stage 2 assumes non-vanishing brackets. Known finding C13-orphan-energy-index: factor_eri_parts captures a contracted index that occurs in the orbital-energy part only (recorded in known_findings.json, not repaired)."),
  "C16": dict(
     level=TV, design="2/C16", engine="tvsmt",
     technique="the scheme returned by the real optimize_contractions / unoptimized_contraction is interpreted step by step by the harness and its result compared with the term's value by z3 (symbolic tensor entries, all target assignments); use-once, sum-once, limits, reported scaling and the scaling bound are direct checks; CrossHair on _split_contracted_and_target and _group_objects with symbolic index layouts",
